@@ -1156,6 +1156,21 @@ class HelperInliner:
                     return node
                 callee, implicit, q = r
                 body = [s for s in callee.body if not (isinstance(s, ast.Expr) and isinstance(s.value, ast.Constant))]
+                if any(isinstance(n, (ast.Yield, ast.YieldFrom)) for n in ast.walk(callee)):
+                    # a generator helper that is one `for T in E: yield V` (or `yield from E`) is the generator expression (V for T in E)
+                    gen: ast.expr | None = None
+                    if len(body) == 1 and isinstance(body[0], ast.For) and not body[0].orelse and len(body[0].body) == 1 \
+                            and isinstance(body[0].body[0], ast.Expr) and isinstance(body[0].body[0].value, ast.Yield) and body[0].body[0].value.value is not None:
+                        gen = ast.GeneratorExp(elt=body[0].body[0].value.value, generators=[ast.comprehension(target=body[0].target, iter=body[0].iter, ifs=[], is_async=0)])
+                    elif len(body) == 1 and isinstance(body[0], ast.Expr) and isinstance(body[0].value, ast.YieldFrom):
+                        gen = body[0].value.value
+                    if gen is None:
+                        return node
+                    b = outer._bind(callee, implicit, node)
+                    if b is not None and all(is_pure_expr(x) for x in b[0].values()):
+                        outer.inlined.add(q)
+                        return ast.copy_location(ast.fix_missing_locations(_Subst(dict(b[0])).visit(copy.deepcopy(gen))), node)
+                    return node
                 if len(body) > 1 and isinstance(body[-1], ast.Return):
                     # pure single-assignment locals of the helper collapse into its return expression
                     try:
@@ -1247,6 +1262,49 @@ def _unroll_bindings(target: ast.expr, elts: list[ast.expr]) -> list[dict[str, a
         else:
             return None
     return out
+
+
+def _bind_pattern(target: ast.expr, value: ast.expr) -> dict[str, ast.expr] | None:
+    if isinstance(target, ast.Name):
+        return {target.id: value}
+    if isinstance(target, (ast.Tuple, ast.List)) and isinstance(value, (ast.Tuple, ast.List)) and len(target.elts) == len(value.elts) \
+            and not any(isinstance(x, ast.Starred) for x in list(target.elts) + list(value.elts)):
+        out: dict[str, ast.expr] = {}
+        for t, v in zip(target.elts, value.elts):
+            sub = _bind_pattern(t, v)
+            if sub is None or set(sub) & set(out):
+                return None
+            out.update(sub)
+        return out
+    return None
+
+
+_TI_COUNTER = [0]
+
+
+def _traversal_unpack(st: ast.For) -> ast.For | None:
+    """A loop that unpacks the traversal records of dfs()/bfs() in its header reads the record's fields by position."""
+    fields = [f for f, _ in NAMEDTUPLE_FIELDS.get("NodeTraversalInfo", [])]
+    if not fields or not (isinstance(st.target, ast.Tuple) and len(st.target.elts) == len(fields) and all(isinstance(x, ast.Name) for x in st.target.elts)):
+        return None
+    it = st.iter
+    if not (isinstance(it, ast.Call) and isinstance(it.func, ast.Attribute) and it.func.attr in ("dfs", "bfs")):
+        return None
+    names = [x.id for x in st.target.elts]  # type: ignore[attr-defined]
+    if len(set(names)) != len(names):
+        dup = {n for n in names if names.count(n) > 1}
+        if any(isinstance(n, ast.Name) and n.id in dup for b_ in st.body for n in ast.walk(b_)):
+            return None
+    if any(isinstance(n, ast.Name) and isinstance(n.ctx, (ast.Store, ast.Del)) and n.id in names for b_ in st.body + st.orelse for n in ast.walk(b_)):
+        return None
+    _TI_COUNTER[0] += 1
+    rec = f"_ti{_TI_COUNTER[0]}"
+    mapping = {n: ast.Attribute(value=ast.Name(id=rec, ctx=ast.Load()), attr=f, ctx=ast.Load()) for n, f in zip(names, fields)}
+    new = copy.copy(st)
+    new.target = ast.copy_location(ast.Name(id=rec, ctx=ast.Store()), st.target)
+    new.body = [_Subst(mapping).visit(copy.deepcopy(b_)) for b_ in st.body]
+    new.orelse = [_Subst(mapping).visit(copy.deepcopy(b_)) for b_ in st.orelse]
+    return ast.fix_missing_locations(new)
 
 
 def _bool_typed(e: ast.expr) -> ast.expr | None:
@@ -1369,6 +1427,9 @@ def lower(fn: ast.FunctionDef, tuples: bool = True, ifexp: bool = True) -> ast.F
                     c.value.args = [v]  # type: ignore[attr-defined]
                     return c
                 new = [ast.copy_location(ast.If(test=ife.test, body=[mkc(ife.body)], orelse=[mkc(ife.orelse)]), st)]
+            elif tuples and isinstance(st, ast.For) and _traversal_unpack(st) is not None:
+                # for node, parent, field, index in x.dfs():  ->  for _ti in x.dfs(): (node -> _ti.node, ...)
+                new = [_traversal_unpack(st)]  # type: ignore[list-item]
             elif ifexp and isinstance(st, ast.For) and isinstance(st.iter, ast.IfExp):
                 # for x in (A if c else B): body [else: E]   ->   if c: for x in A: ... else: for x in B: ...   (c is evaluated once, first)
                 ife = st.iter
@@ -1556,6 +1617,48 @@ class _Canon(ast.NodeTransformer):
             js = _format_to_fstring(f.value.value, node.args, {k.arg: k.value for k in node.keywords})
             if js is not None:
                 return ast.copy_location(js, node)
+        return node
+
+    # ---- a comprehension over a generator expression is one comprehension: (E(t) for t in (V for T in X))  ->  (E(V) for T in X)
+    def _fuse(self, node: Any) -> Any:
+        self.generic_visit(node)
+        if len(node.generators) != 1:
+            return node
+        g = node.generators[0]
+        inner = g.iter
+        if not (isinstance(inner, ast.GeneratorExp) and len(inner.generators) == 1 and not g.is_async and not inner.generators[0].is_async):
+            return node
+        one = _bind_pattern(g.target, inner.elt)
+        if one is None or not all(is_pure_expr(v) for v in one.values()):
+            return node
+        binding = [one]
+        ig = inner.generators[0]
+        inner_names = {n.id for n in ast.walk(ig.target) if isinstance(n, ast.Name)}
+        outer_free = {n.id for x in [getattr(node, "elt", None), getattr(node, "key", None), getattr(node, "value", None)] + list(g.ifs) if x is not None
+                      for n in ast.walk(x) if isinstance(n, ast.Name)} - set(binding[0])
+        if inner_names & outer_free:
+            return node  # the inner loop variable would capture a name of the outer element
+        m = binding[0]
+        new = copy.copy(node)
+        for fld in ("elt", "key", "value"):
+            if hasattr(node, fld):
+                setattr(new, fld, _Subst(m).visit(copy.deepcopy(getattr(node, fld))))
+        new.generators = [ast.comprehension(target=ig.target, iter=ig.iter, ifs=list(ig.ifs) + [_Subst(m).visit(copy.deepcopy(c)) for c in g.ifs], is_async=0)]
+        return ast.copy_location(ast.fix_missing_locations(new), node)
+
+    visit_GeneratorExp = _fuse
+    visit_ListComp = _fuse
+    visit_SetComp = _fuse
+    visit_DictComp = _fuse
+
+    # ---- `A if A else B` is `A or B` (A pure: evaluated once or twice makes no difference)
+    def visit_IfExp(self, node: ast.IfExp) -> ast.AST:
+        self.generic_visit(node)
+        if is_pure_expr(node.test) and ast.dump(node.test) == ast.dump(node.body):
+            return ast.copy_location(ast.BoolOp(op=ast.Or(), values=[node.body, node.orelse]), node)
+        if isinstance(node.test, ast.UnaryOp) and isinstance(node.test.op, ast.Not) and is_pure_expr(node.test.operand) \
+                and ast.dump(node.test.operand) == ast.dump(node.orelse):
+            return ast.copy_location(ast.BoolOp(op=ast.Or(), values=[node.orelse, node.body]), node)
         return node
 
     # ---- string building: constants inside f-strings are literal text; "lit" + <known str> is an f-string
@@ -1870,6 +1973,15 @@ def _inline_adjacent(fn: ast.FunctionDef) -> None:
     rewrite(fn.body)
 
 
+class _Strings(ast.NodeTransformer):
+    """The string spellings of _Canon only (run again after locals were substituted)."""
+    visit_JoinedStr = _Canon.visit_JoinedStr
+    visit_BinOp = _Canon.visit_BinOp
+
+    def visit_ClassDef(self, node: ast.ClassDef) -> ast.AST:
+        return node
+
+
 def _canon_body(fn: ast.FunctionDef) -> list[ast.stmt]:
     m = ast.Module(body=list(fn.body), type_ignores=[])
     m = _Canon().visit(m)
@@ -1919,5 +2031,6 @@ def normalize(fn: ast.FunctionDef, cls: ast.ClassDef | None, qual: str, inliner:
     new = lower(new, tuples=True, ifexp=True)
     _while_true_break(new)
     _flatten_else(new)
+    new.body = _Strings().visit(ast.Module(body=new.body, type_ignores=[])).body  # substituted text pieces fold into their f-strings
     ast.fix_missing_locations(new)
     return new
